@@ -49,19 +49,20 @@ def run(ctx):
     seen, trees = set(), []
     for c in raw:
         spec, nodes = render(c["par"], c["esc"])
-        k = (c["runner"], spec, c["rootfirst"])
+        k = (c["runner"], spec, c["end"])
         if k in seen or nodes < 2:
             continue
         seen.add(k)
-        trees.append({"runner": c["runner"], "tree": spec, "nodes": nodes, "rootfirst": c["rootfirst"]})
+        trees.append({"runner": c["runner"], "tree": spec, "nodes": nodes, "end": c["end"], "rootfirst": c["end"] == "exit"})
     ctx.cov["distinct_trees_generated"] = len(trees)
     ctx.rng.shuffle(trees)
     if ctx.quick():
         per = {}
         keep = []
         for t in trees:
-            if per.get(t["runner"], 0) < 12:
-                per[t["runner"]] = per.get(t["runner"], 0) + 1
+            k = (t["runner"], t["end"])
+            if per.get(k, 0) < 5:
+                per[k] = per.get(k, 0) + 1
                 keep.append(t)
         trees = keep
     else:
@@ -91,7 +92,7 @@ def run(ctx):
             o = tobs[b["i"] - 1]
             what = "hang" if o["r"] == "hang" else "alive" if o["alive"] else "zombie" if o["zombies"] else "initkids"
             esc = "".join(sorted(set(ch for ch in o["tree"] if ch in "sgd"))) or "-"
-            ctx.violation("tree:%s:%s:rootfirst=%d:esc=%s" % (o["runner"], what, 1 if o["rootfirst"] else 0, esc),
+            ctx.violation("tree:%s:%s:end=%s:esc=%s" % (o["runner"], what, o["end"], esc),
                           "after the run returned: alive=%d zombies=%d init children=%d r=%s" % (o["alive"], o["zombies"], o["initkids"], o["r"]), o)
         else:
             o = cobs[b["i"] - 1]
@@ -104,6 +105,6 @@ def run(ctx):
     ctx.assumptions += ["processes of a program are found by a nonce in /proc/*/cmdline; zombies via /proc/<pid>/task/*/children + stat",
                         "SIGKILL is asynchronous: a process may take up to 2 s to disappear after the run returned; counters may take up to 3 s to settle",
                         "leaving the process group (setsid/setpgid/daemonise) only under the pid-namespace based runners, as the property states"]
-    return dict(evaluations=len(tobs) + len(cobs), distinct=len({(o["runner"], o["tree"], o["rootfirst"]) for o in tobs}),
+    return dict(evaluations=len(tobs) + len(cobs), distinct=len({(o["runner"], o["tree"], o["end"]) for o in tobs}),
                 rule="TLC-enumerated ProcTree initial states rendered as real process trees; counters over %d repetitions of a %d-op history" % (reps, len(HISTORY)),
                 exhaustive=False)
